@@ -33,6 +33,10 @@ def worker(job):
         problems.append(("rejected", "convolve rejected a valid option set: %s" % base.exc, None))
         return dict(cfg=cfg, problems=problems)
     tout = (ki + kf, (pi + pf) % 2)
+    if base.size == 0:
+        cfg["empty_output"] = True
+        cfg["group_elements"] = 0
+        return dict(cfg=cfg, problems=problems)
     gs = generators(D) + [G[i] for i in extra_g]
     cfg["group_elements"] = len(gs)
     for g in gs:
